@@ -93,8 +93,8 @@ func emitCorpus(dir string) {
 	in = genInput(r, 9004, GenOpt{Type: "Keyed", NoRet: true, Op: "maps", N: 2, AllowKnown: true})
 	setKey(&in, 5000, 3000)
 	put("noret_maps_preset_keys", "Create([]map) with preset keys without RETURNING: the keys in the maps are overwritten by LastInsertId arithmetic", in)
-	in = genInput(r, 9005, GenOpt{Type: "UnixU", NoRet: false, Op: "struct", N: 1, AllowKnown: true})
-	put("unixtime_uint", "serializer:unixtime on a uint field panics in reflect.Value.Int", in)
+	in = genInput(r, 9005, GenOpt{Type: "UnixU", NoRet: false, Op: "struct", N: 1})
+	put("unixtime_uint", "fixed defect (repo commit f5d72d2): serializer:unixtime on a uint field panicked in reflect.Value.Int; must now round-trip", in)
 	in = genInput(r, 9006, GenOpt{Type: "Sers", NoRet: false, Op: "struct", N: 1, AllowKnown: true})
 	put("model_map_serializer", "Model(&T{}).Take(&map) on a model with serializer fields: Scan error", in)
 }
@@ -180,6 +180,6 @@ func main() {
 		}
 		add(kind, genInput(r, i, g))
 	}
-	out.Extra["rule"] = "cases = model type (fixed family of 9 hand-written struct types: integer widths, floats/bool/string/bytes/time and pointers, sql.Null*, custom Scanner/Valuer, json/gob/unixtime serializers, embedded structs with prefixes and renamed columns, literal and database-generated defaults, tracked times, composite / renamed / string keys) x RETURNING on/off x Create of struct | slice | slice of pointers | CreateInBatches(bs) | map | []map x 1..7 records of boundary values x preset / zero / mixed keys x pre-existing rows; distinct = distinct (type, mode, op, sizes, per-cell value class zero/nil/absent/value) shapes; non-trivial = at least two records created without error"
+	out.Extra["rule"] = "cases = model type (fixed family of 10 hand-written struct types: integer widths, floats/bool/string/bytes/time and pointers, sql.Null*, custom Scanner/Valuer, json/gob/unixtime serializers, embedded structs with prefixes and renamed columns, literal and database-generated defaults, tracked times, composite / renamed / string keys) x RETURNING on/off x Create of struct | slice | slice of pointers | CreateInBatches(bs) | map | []map x 1..7 records of boundary values x preset / zero / mixed keys x pre-existing rows; distinct = distinct (type, mode, op, sizes, per-cell value class zero/nil/absent/value) shapes; non-trivial = at least two records created without error"
 	lib.Must(out.Flush())
 }
